@@ -520,7 +520,9 @@ def set_pairs(c):
     """the (word, name) similarity table of the case's FINAL source (callers may replace src after make_case): the words
     that are not names first; a case whose table would be cut is marked and left out by the driver"""
     names = sorted(set(all_names(EBY[c["recv"]])))
-    words = sorted(set(re.findall(r"(?:::)?[A-Za-z_][A-Za-z0-9_:]*", (c["src"] + " " + c.get("twin_src", "")).replace("r#", ""))), key=lambda w: (w in names, w))
+    plain = (c["src"] + " " + c.get("twin_src", "")).replace("r#", "")
+    words = sorted(set(re.findall(r"(?:::)?[A-Za-z_][A-Za-z0-9_:]*", plain))
+                   | set(re.findall(r"(?:::)?[A-Za-z_][A-Za-z0-9_:]*", re.sub(r"\s*::\s*", "::", plain))), key=lambda w: (w in names, w))
     c["pairs"] = [(w, n) for w in words for n in names][:PAIR_CAP]
     c["pairs_truncated"] = len(words) * len(names) > PAIR_CAP
     return c
